@@ -33,12 +33,23 @@ def gen_session(rng, sid, nops):
     sizes = {}          # driver-side guess of list lengths is not needed: indices are drawn small, out-of-range is a legal call
     nh = 0
     nm = 0
+    npt = 0
     long_text = cps("あ" * 16384)   # 49,152 bytes: refused by the library
     for _ in range(nops):
         r = rng.random()
         out = -1
         if nlists > 0 and rng.random() < 0.45:
             out = rng.randrange(nlists)
+        if rng.random() < (0.25 if npt else 0.1):
+            if npt == 0 or rng.random() < 0.2:
+                f = rng.choice(FIELDS)
+                op = {"op": "pretok_new", "pt": npt, "mode": rng.choice([-1, 0, 1, 2]), "fields": "all" if f is None else f,
+                      "projection": rng.choice(PROJS) if rng.random() < 0.4 else "surface", "handler": rng.random() < 0.4}
+                npt += 1
+            else:
+                op = {"op": "pretok_call", "pt": rng.randrange(npt), "text": long_text if rng.random() < 0.05 else cps(rng.choice(TEXTS))}
+            ops.append(op)
+            continue
         if rng.random() < 0.18:
             rr = rng.random()
             if rr < 0.45 or nm == 0:
